@@ -451,10 +451,18 @@ pub fn lookup_case(lon: f64, lat: f64, res: i32, kind: &str) -> GenCase {
     }
 }
 
+/// comparison tolerance in degrees (as a dyadic literal): 2^-30 away from the poles; near a pole a
+/// longitude is ill-conditioned (a position error e moves it by e / cos(lat)), so the tolerance grows
+pub fn pole_tol(max_abs_lat: f64) -> String {
+    let c = max_abs_lat.to_radians().cos().abs().max(1e-12);
+    let k = (-30.0 + (1.0 / c).log2().ceil()).min(8.0) as i32;
+    format!("(1, ({}))", k)
+}
+
 pub fn centre_case(id: u64) -> GenCase {
     let c = cell_to_lonlat(id).unwrap();
     GenCase {
-        coq: format!("GCentre {} {} {} {}", crate::idcorr::u(id), dy(c.longitude()), dy(c.latitude()), TOL30),
+        coq: format!("GCentre {} {} {} {}", crate::idcorr::u(id), dy(c.longitude()), dy(c.latitude()), pole_tol(c.latitude().abs())),
         desc: format!("cell_to_lonlat({:x}) -> ({}, {})", id, c.longitude(), c.latitude()),
         kind: "cell_to_lonlat".into(),
     }
@@ -464,9 +472,10 @@ pub fn boundary_case(id: u64, segments: Option<i32>) -> GenCase {
     let mut b = cell_to_boundary(id, Some(CellToBoundaryOptions { closed_ring: false, segments })).unwrap();
     b.reverse(); // back to pentagon order
     let pts: Vec<String> = b.iter().map(|p| format!("({}, {})", dy(p.longitude()), dy(p.latitude()))).collect();
-    let seg = match segments { Some(n) => format!("(Some {})", n), None => "None".into() };
+    let seg = match segments { Some(n) => format!("(Some {})", z(n as i128)), None => "None".into() };
+    let tol = pole_tol(b.iter().map(|p| p.latitude().abs()).fold(0.0, f64::max));
     GenCase {
-        coq: format!("GBoundary {} {} [{}] {}", crate::idcorr::u(id), seg, pts.join("; "), TOL30),
+        coq: format!("GBoundary {} {} [{}] {}", crate::idcorr::u(id), seg, pts.join("; "), tol),
         desc: format!("cell_to_boundary({:x}, segments {:?}) -> {} points, first ({}, {})", id, segments, b.len(), b[0].longitude(), b[0].latitude()),
         kind: "cell_to_boundary".into(),
     }
@@ -475,9 +484,10 @@ pub fn boundary_case(id: u64, segments: Option<i32>) -> GenCase {
 pub fn ring_case(id: u64, segments: Option<i32>, closed: bool) -> GenCase {
     let b = cell_to_boundary(id, Some(CellToBoundaryOptions { closed_ring: closed, segments })).unwrap();
     let pts: Vec<String> = b.iter().map(|p| format!("({}, {})", dy(p.longitude()), dy(p.latitude()))).collect();
-    let seg = match segments { Some(n) => format!("(Some {})", n), None => "None".into() };
+    let seg = match segments { Some(n) => format!("(Some {})", z(n as i128)), None => "None".into() };
+    let tol = pole_tol(b.iter().map(|p| p.latitude().abs()).fold(0.0, f64::max));
     GenCase {
-        coq: format!("GRing {} {} {} [{}] {}", crate::idcorr::u(id), seg, closed, pts.join("; "), TOL30),
+        coq: format!("GRing {} {} {} [{}] {}", crate::idcorr::u(id), seg, closed, pts.join("; "), tol),
         desc: format!("cell_to_boundary({:x}, segments {:?}, closed {}) -> {} points", id, segments, closed, b.len()),
         kind: "cell_to_boundary_ring".into(),
     }
@@ -567,7 +577,7 @@ pub fn cases_c11(rng: &mut Rng, thorough: bool) -> Vec<GenCase> {
             1 => lonlat_to_cell(LonLat::new(360.0 * rng.unit() - 180.0, if rng.chance(1, 2) { 89.0 + rng.unit() } else { -89.0 - rng.unit() }), res.min(12)).unwrap(),
             _ => random_cell(rng, res),
         };
-        let seg = match rng.below(3) { 0 => Some(1), 1 => Some(2), _ => Some(3) };
+        let seg = match rng.below(8) { 0 | 1 => Some(1), 2 | 3 => Some(2), 4 | 5 => Some(3), 6 => Some(0), _ => Some(-(1 + rng.below(5) as i32)) };
         if k % 2 == 0 {
             v.push(ring_case(id, seg, rng.chance(1, 2)));
         } else {
